@@ -37,7 +37,14 @@ func formatSchema(g *Gen, depth int) M {
 	if depth <= 0 {
 		return leaf()
 	}
-	switch r.Intn(7) {
+	switch r.Intn(8) {
+	case 7:
+		// under "not": whatever is switched on for the duration of the negated schema must be switched off again
+		n := M{"not": formatSchema(g, depth-1)}
+		if r.Chance(500) {
+			n["type"] = pick(r, []string{"object", "string", "array"})
+		}
+		return n
 	case 0:
 		return leaf()
 	case 1:
@@ -117,6 +124,9 @@ func formatInstance(g *Gen, s M, depth int) any {
 				return formatInstance(g, sub, depth+1)
 			}
 		}
+	}
+	if sub, ok := s["not"].(M); ok {
+		return formatInstance(g, sub, depth+1) // drive validation into the formats of the negated schema
 	}
 	switch s["type"] {
 	case "object":
@@ -212,7 +222,11 @@ func brokenRefSchema(g *Gen) (M, any) {
 	r := g.r
 	bad := M{"$ref": "#/definitions/missing"}
 	good := formatSchema(g, 1)
-	switch r.Intn(5) {
+	switch r.Intn(7) {
+	case 5:
+		return M{"type": "object", "not": M{"properties": M{"a": good, "b": bad}}}, M{"a": formatInstance(g, good, 0), "b": 1}
+	case 6:
+		return M{"anyOf": []any{M{"properties": M{"a": good}}, M{"items": bad, "properties": M{"b": bad}}}}, pick(r, []any{M{"a": formatInstance(g, good, 0), "b": 1}, []any{1}})
 	case 0:
 		return M{"type": "object", "properties": M{"a": good, "b": bad}}, M{"a": formatInstance(g, good, 0), "b": 1}
 	case 1:
